@@ -22,6 +22,37 @@ CP = 'pydoctor._configparser'
 OPT = 'pydoctor.options'
 
 
+def _quote_alternatives(pat: str) -> Optional[List[object]]:
+    """The top-level alternatives of a regex with the quote characters abstracted (re._parser AST); None if it is not a top-level branch."""
+    try:
+        import re._parser as sp          # type: ignore[import-not-found]
+        import re._constants as sc       # type: ignore[import-not-found]
+    except ImportError:  # pragma: no cover
+        import sre_parse as sp           # type: ignore[no-redef]
+        import sre_constants as sc       # type: ignore[no-redef]
+    try:
+        parsed = sp.parse(pat)
+    except Exception:
+        return None
+
+    def dump(x: object) -> object:
+        if isinstance(x, sp.SubPattern):
+            return [dump(i) for i in x]
+        if isinstance(x, tuple):
+            if len(x) == 2 and x[0] in (sc.LITERAL, sc.NOT_LITERAL) and x[1] in (34, 39):
+                return (str(x[0]), 'QUOTE')
+            if len(x) == 2 and x[0] == sc.SUBPATTERN:
+                return ('SUBPATTERN',) + tuple(dump(i) for i in x[1][1:])    # group numbers differ between the alternatives
+            return tuple(dump(i) for i in x)
+        if isinstance(x, list):
+            return [dump(i) for i in x]
+        return str(x) if not isinstance(x, (int, str, type(None))) else x
+    items = list(parsed)
+    if len(items) != 1 or items[0][0] != sc.BRANCH:
+        return None
+    return [dump(a) for a in items[0][1][1]]
+
+
 def run(repo: Repo, chk: Check, thorough: bool = False) -> None:
     chk.explanation = ('who-may-call census of the config parsers and of Options construction; path rule on ValidatorParser.parse; set '
                        'comparison of the add_argument dest names with the attrs fields of Options; sibling comparison of the TOML and INI '
@@ -101,7 +132,14 @@ def run(repo: Repo, chk: Check, thorough: bool = False) -> None:
     kk = [n for n in vpp.walk() if isinstance(n, ast.DictComp) and 'get_possible_config_keys' in norm(n)]
     chk.ob('R20.2', f'{CP}.ValidatorParser.parse :: known keys come from the argument parser itself', bool(kk),
            'argument_parser.get_possible_config_keys(action) for every action' if kk else 'known keys are no longer derived from the parser', vpp.loc)
-    chk.require('R20.2', 4)
+    for n in kk:
+        conds = [c for g in n.generators for c in g.ifs]
+        over_actions = any(norm(g.iter).endswith('._actions') for g in n.generators)
+        chk.ob('R20.2', f'{CP}.ValidatorParser.parse :: every action of the parser contributes its config keys', over_actions and not conds,
+               'all of argument_parser._actions, unfiltered (which keys an action answers to is decided by get_possible_config_keys)' if over_actions and not conds else
+               f'the known keys are restricted by `{norm(conds[0]) if conds else "?"}`: an option the command line accepts is reported as "No such config '
+               'option" and dropped when it is written in a config file', repo.loc(vpp.mod, n))
+    chk.require('R20.2', 5)
 
     # ------------------------------------------------------------------ R20.3
     dests: Set[str] = set()
@@ -177,6 +215,29 @@ def run(repo: Repo, chk: Check, thorough: bool = False) -> None:
     ok = any(call_name(c) == 'literal_eval' for c in calls_in(us)) and \
         all(any('Exception' in handler_names(h) or is_catch_all(h) or 'SyntaxError' in handler_names(h) for t in enclosing_trys(c, us.node) for h in t.handlers)
             for c in calls_in(us) if call_name(c) == 'literal_eval')
+    # the double-quote and single-quote alternatives of the quoting regexes are siblings: same grammar, only the quote character differs
+    n_rx = 0
+    cpm = repo.mod(CP)
+    for nm_, v in sorted(cpm.assigns.items()):
+        if not (isinstance(v, ast.Call) and call_name(v) == 'compile' and v.args):
+            continue
+        try:
+            pat = ast.literal_eval(v.args[0])
+        except Exception:
+            continue
+        if not isinstance(pat, str) or ('"' not in pat or "'" not in pat):
+            continue
+        alts = _quote_alternatives(pat)
+        if alts is None:
+            continue
+        n_rx += 1
+        same = len(alts) == 2 and alts[0] == alts[1]
+        chk.ob('R20.5', f'{CP}.{nm_} :: double- and single-quoted forms have the same grammar', same,
+               'the two alternatives are equal up to the quote character' if same else
+               'the alternatives for "..." and \'...\' differ in more than the quote character: a value that is recognised (and unquoted) with one kind of '
+               'quotes is passed on raw, quotes included, with the other', f'{cpm.relpath}:{v.lineno}')
+    if n_rx < 2:
+        raise AnalysisError(f'R20.5: {n_rx} two-quote regexes found in _configparser (_QUOTED_STR_REGEX, _TRIPLE_QUOTED_STR_REGEX confirmed)')
     chk.ob('R20.5', f'{CP}.unquote_str :: evaluation errors become ValueError', ok, 'literal_eval in try -> ValueError', us.loc)
     chk.require('R20.5', 4)
 
